@@ -30,7 +30,7 @@ Rows == { [writers |-> w, msgs |-> m, inbound |-> i, event |-> e, place |-> p, k
 \* localCloseReason, k = 1: the transport write of the close frame returns only after the peer has reacted to it
 Valid(r) == /\ (r.event \in {"writeFail", "readFail", "peerClose", "peerBad"}) => (r.k > 0)
             /\ (r.event \in {"none", "slowWrite", "localClose", "peerEof", "peerSilent", "idleLong"}) => (r.k = 0)
-            /\ r.event = "localCloseReason" => r.k <= 1
+            /\ r.event = "localCloseReason" => r.k <= 2          \* k = 2: the transport write of the close frame fails
             /\ r.event \in {"peerSilent", "idleLong"} => (Long /\ r.k = 0 /\ r.inbound = 0 /\ r.place = "idle" /\ r.writers = 1 /\ r.msgs = 1)
             /\ r.event = "slowWrite" => (r.k = 0 /\ r.inbound = 0 /\ r.place = "idle" /\ r.msgs = 2)
             /\ r.event = "localCloseStalled" => (r.k <= 1 /\ r.inbound = 0 /\ r.place = "idle" /\ r.writers = 1 /\ r.msgs = 1)
